@@ -69,6 +69,15 @@ func derefType(rtype reflect.Type) reflect.Type {
 	return rtype
 }
 
+// Get rid of 0 to many levels of pointers to get at the real value. The
+// invalid reflect.Value is returned if a nil pointer is met on the way.
+func derefValue(rvalue reflect.Value) reflect.Value {
+	for rvalue.Kind() == reflect.Ptr {
+		rvalue = rvalue.Elem()
+	}
+	return rvalue
+}
+
 func doMatchMatches(expression *grammar.MatchExpression, value reflect.Value) (bool, error) {
 	if !value.IsValid() {
 		return false, errors.New("nil value is not convertible to []byte")
@@ -146,7 +155,11 @@ func doMatchIn(expression *grammar.MatchExpression, value reflect.Value) (bool, 
 			// have to treat each element individually, checking each element's
 			// type/kind and rederiving the match value.
 			for i := 0; i < value.Len(); i++ {
-				item := value.Index(i).Elem()
+				item := derefValue(value.Index(i).Elem())
+				if !item.IsValid() {
+					// a nil element is not equal to any literal
+					continue
+				}
 				itemType := derefType(item.Type())
 				kind := itemType.Kind()
 				// We need to special case errors here. The reason is that in an
@@ -171,7 +184,7 @@ func doMatchIn(expression *grammar.MatchExpression, value reflect.Value) (bool, 
 					return false, fmt.Errorf(`unable to find suitable primitive comparison function for "in" comparison in interface slice: %s`, kind)
 				}
 				// the value will be the correct type as we verified the itemType
-				if eqFn(matchValue, reflect.Indirect(item)) {
+				if eqFn(matchValue, item) {
 					return true, nil
 				}
 			}
@@ -190,9 +203,13 @@ func doMatchIn(expression *grammar.MatchExpression, value reflect.Value) (bool, 
 				return false, errors.New(`unable to find suitable primitive comparison function for "in" comparison`)
 			}
 			for i := 0; i < value.Len(); i++ {
-				item := value.Index(i)
+				item := derefValue(value.Index(i))
+				if !item.IsValid() {
+					// a nil element is not equal to any literal
+					continue
+				}
 				// the value will be the correct type as we verified the itemType
-				if eqFn(matchValue, reflect.Indirect(item)) {
+				if eqFn(matchValue, item) {
 					return true, nil
 				}
 			}
